@@ -9,8 +9,7 @@ product, type change, `normalize` and the format conversions; `OpExpr.eval` eval
 All theorems are for matrices of any size over ℚ.
 -/
 import SkNet.Lemmas.LinOpExpr
-import SkNet.Model.Convert
-import SkNet.Spec.Convert
+import SkNet.Lemmas.Convert
 
 namespace SkNet.C15
 open SkNet SkNet.LinOp SkNet.Convert
@@ -214,5 +213,100 @@ theorem pseudo_inverse (w : Rat) : (w = 0 → pinv w = 0) ∧ (w ≠ 0 → pinv 
   rw [one_div, inv_mul_cancel₀ h]
 
 theorem pinvVec_spec (w : Vec) (i : Nat) : vget (pinvVec w) i = pinv (vget w i) := vget_pinvVec w i
+
+/-- **normalize_rows**: `normalize(matrix, p=1)` divides every row by its 1-norm — the rows of the result have
+1-norm 1, the null rows stay null, and each row times the norm of the input row gives the input row back -/
+theorem normalize_rows (a : Mat) (i j : Nat) :
+    vget (norms1 (normalize1 a)) i = (if vget (norms1 a) i = 0 then 0 else 1) ∧
+    (vget (norms1 a) i = 0 → (normalize1 a).get i j = 0) ∧
+    (normalize1 a).get i j * vget (norms1 a) i = a.get i j :=
+  ⟨normalize1_row_norm a i, fun h => (normalize1_null_row a i h j).1, normalize1_proportional a i j⟩
+
+example : normalize1 ⟨2, 2, [[1, -3], [0, 0]]⟩ = ⟨2, 2, [[1/4, -3/4], [0, 0]]⟩ := by decide +kernel
+
+/-! ## ★ laplacian_eq, directed2undirected_denote, bipartite conversions, tfidf_eq_def -/
+
+/-- **laplacian_eq D − A**: `get_laplacian` refuses non-square input; otherwise its entries are
+`δ_ij Σ_k a_ik − a_ij` and every row sums to zero -/
+theorem laplacian_eq (a l : Mat) (h : getLaplacian a = .ok l) :
+    (∀ i j, i < a.nRow → j < a.nRow → l.get i j = (if i = j then vget a.rowSums i else 0) - a.get i j) ∧
+    (∀ i, i < a.nRow → sumTo a.nRow (fun j => l.get i j) = 0) :=
+  ⟨(getLaplacian_spec h).2.2.2.1, (getLaplacian_spec h).2.2.2.2⟩
+
+example : (getLaplacian ⟨2, 2, [[0, 2], [1, 3]]⟩).toOption = some ⟨2, 2, [[2, -2], [-1, 1]]⟩ := by decide +kernel
+example : (getLaplacian ⟨1, 2, [[0, 2]]⟩).toOption = none := by decide +kernel
+
+/-- **directed2undirected_denote**: `A + Aᵀ`, or the indicator of `A + Aᵀ ≠ 0`; always symmetric;
+refused for a non-square matrix. The dtype rule is `d2uDtype`. -/
+theorem directed2undirected_denote (a m : Mat) (weighted : Bool) (h : directed2undirected a weighted = .ok m) :
+    (∀ i j, i < a.nRow → j < a.nRow →
+      m.get i j = if weighted then a.get i j + a.get j i else (if a.get i j + a.get j i ≠ 0 then 1 else 0)) ∧
+    (∀ i j, m.get i j = m.get j i) :=
+  ⟨(directed2undirected_spec h).2.2.2.1, (directed2undirected_spec h).2.2.2.2⟩
+
+example : (directed2undirected ⟨2, 2, [[0, 2], [1, 3]]⟩ true).toOption = some ⟨2, 2, [[0, 3], [3, 6]]⟩ := by decide +kernel
+
+/-- the dtype rule of `directed2undirected(weighted=True)`: floating types stay floating (repaired: float32 went
+through `astype(int)`), everything else becomes int -/
+theorem d2u_dtype_rule : d2uDtype .float64 = .float64 ∧ d2uDtype .float32 = .float64 ∧
+    d2uDtype .int = .int ∧ d2uDtype .bool = .int := ⟨rfl, rfl, rfl, rfl⟩
+
+/-- **bipartite conversions**: `[[0, B], [Bᵀ, 0]]` and `[[0, B], [0, 0]]` entry by entry -/
+theorem bipartite2undirected_denote (b : Mat) (i j : Nat) (hi : i < b.nRow + b.nCol) (hj : j < b.nRow + b.nCol) :
+    (bipartite2undirected b).get i j =
+      if i < b.nRow then (if j < b.nRow then 0 else b.get i (j - b.nRow))
+      else (if j < b.nRow then b.get j (i - b.nRow) else 0) := bipartite2undirected_spec b i j hi hj
+
+theorem bipartite2directed_denote (b : Mat) (i j : Nat) (hi : i < b.nRow + b.nCol) (hj : j < b.nRow + b.nCol) :
+    (bipartite2directed b).get i j = if i < b.nRow ∧ b.nRow ≤ j then b.get i (j - b.nRow) else 0 :=
+  bipartite2directed_spec b i j hi hj
+
+/-- **tfidf_eq_def**: `tf-idf[i, j] = count[i, j] / Σ_k |count[i, k]| · log(N / df_j)`, 0 for an empty document
+or a word of no document (`logTable[f-1]` stands for `log(N / f)`), `df_j` = number of documents with a positive count -/
+theorem tfidf_eq_def (count : Mat) (logTable : List Rat) (i j : Nat) (hi : i < count.nRow) (hj : j < count.nCol) :
+    (getTfidf count logTable).get i j
+      = pinv (sumTo count.nCol fun k => |count.get i k|) * count.get i j
+        * (if 0 < (docFreq count).getD j 0 then logTable.getD ((docFreq count).getD j 0 - 1) 0 else 0)
+    ∧ (docFreq count).getD j 0 = ((List.range count.nRow).filter fun i => 0 < count.get i j).length :=
+  ⟨getTfidf_spec count logTable i j hi hj, docFreq_spec count j hj⟩
+
+/-! ## ★ membership_roundtrip -/
+
+/-- **membership_roundtrip**: whenever `get_membership(labels, n_labels)` succeeds,
+`from_membership` of the result gives the labels back with every negative label replaced by `-1` -/
+theorem membership_roundtrip (labels : List Int) (nLabels : Option Nat) (c : Csr Rat)
+    (h : getMembership labels nLabels = .ok c) : fromMembership c = .ok (clampLabels labels) := by
+  obtain ⟨m, -, -, rfl⟩ := getMembership_ok h
+  exact fromMembership_membershipCsr labels m
+
+example : ((getMembership [0, -3, 2, 2] none).toOption.map fun c => (c.nRow, c.nCol, c.indptr.toList, c.indices.toList))
+    = some (4, 3, [0, 1, 1, 2, 3], [0, 2, 2]) := by decide +kernel
+example : clampLabels [0, -3, 2, 2] = [0, -1, 2, 2] := by decide
+
+/-- `get_membership` succeeds exactly with a non-negative number of columns that exceeds every label -/
+theorem membership_ok_shape (labels : List Int) (nLabels : Option Nat) (c : Csr Rat)
+    (h : getMembership labels nLabels = .ok c) :
+    ∃ m : Int, 0 ≤ m ∧ (∀ x ∈ labels, 0 ≤ x → x < m) ∧ c = membershipCsr labels m := getMembership_ok h
+
+/-- `from_membership` refuses a matrix with two labels in a row (numpy cannot assign 3 values to 2 places) -/
+theorem from_membership_multilabel :
+    (fromMembership (⟨2, 2, #[0, 2, 3], #[0, 1, 1], #[1, 1, 1]⟩ : Csr Rat)).toOption = none := by
+  decide +kernel
+
+/-! ## ★ topk_spec -/
+
+/-- **topk_spec**: `top_k(scores, k, sort)` returns `min(k, n)` distinct valid indices such that no left-out score
+exceeds a returned one, by non-increasing score when `sort` — for every score vector, `k` and `sort`
+(in particular `k ≥ n` with `sort=False`, which raised before the repair, finding F16) -/
+theorem topk_spec (scores : List Rat) (k : Nat) (sort : Bool) :
+    TopKSpec scores k sort (topK scores k sort) = true := topK_spec scores k sort
+
+/-- the same as a proposition -/
+theorem topk_prop (scores : List Rat) (k : Nat) (sort : Bool) : TopKProp scores k sort (topK scores k sort) :=
+  topK_prop scores k sort
+
+/-- the pinned code raised for `sort=False`, `k ≥ n ≥ 2` (witness replayed in corpus/C15.jsonl) -/
+theorem topk_pinned_raises : (topKPinned [3, 1, 2] 5 false).toOption = none ∧ topK [3, 1, 2] 5 false = [0, 1, 2] := by
+  decide +kernel
 
 end SkNet.C15
